@@ -47,7 +47,7 @@ P = {
  "C19": dict(tech="runtime monitor: exhaustive nil/non-nil patterns against the filter-non-nil oracle, result-shape classifier with per-pattern pinned known outcomes",
    text="Exploration: all patterns of length <=10 / <=12 x 3 scan limits x 4 index-option sets, 30k / 2M random long patterns (incl. long nil runs under explicit limits above 50) and 30k / 2M random nested trees; every wrong result is classified by shape. The truncation defect (finding defrag:truncation) is recorded, everything else is a violation.", ref="2 C19"),
  "C20": dict(tech="runtime monitor: before/after live descriptions with node identity; leaf-sequence, unwrapped-normal-form, depth and protected-node oracles; lock-point hook detecting re-entrant acquisition and leaked locks; concurrent phase with a wait-for graph over the lock events as deadlock verdict",
-   text="Exploration: all single-child chains of length <=4 / <=5 over kind x parenthetical with three endings (33k / 333k) plus 200k / 10M random chain-biased trees with Conditions, aliases, empty stacks and mutex-enabled nodes; Reveal applied twice, five oracles per application. Concurrent phase (99 / ~5 000 runs of 3 000 / 20 000 rounds): Reveal loops on a mutex-enabled stack against push+pop / remove / reset / insert / reverse / swap of envelopes and against child.Transfer(parent), with private Reveals alongside; no panic, no deadlock (wait-for graph), every envelope returns with its leaf, the fixed part survives in order.", ref="2 C20"),
+   text="Exploration: all single-child chains of length <=4 / <=5 over kind x parenthetical with three endings (33k / 333k) plus 200k / 10M random chain-biased trees with Conditions, aliases, empty stacks and mutex-enabled nodes; Reveal applied twice, five oracles per application. Concurrent phase (99 / ~1 250 runs of 3 000 / 6 000 rounds): Reveal loops on a mutex-enabled stack against push+pop / remove / reset / insert / reverse / swap of envelopes and against child.Transfer(parent), with private Reveals alongside; no panic, no deadlock (wait-for graph), every envelope returns with its leaf, the fixed part survives in order.", ref="2 C20"),
 }
 
 NOT_BUILT = "check not built yet in this session (planned; see DESIGN.md section 2)"
